@@ -29,6 +29,9 @@ var (
 // ServerName is the DNS name in the server leaves.
 const ServerName = "server.test"
 
+// UnderscoreName is a server name with an underscore: legal as a DNS SAN for x509, not an RFC 1123 host name.
+const UnderscoreName = "db_primary.server.test"
+
 // CA is a certificate authority of the fixture set.
 type CA struct {
 	Cert *x509.Certificate
@@ -145,6 +148,7 @@ func GetCreds() *Creds {
 		c.leaves["rsa"] = c.CA1.leaf(ServerName, srv, rs(), notBefore, notAfter, both)
 		c.leaves["expired"] = c.CA1.leaf(ServerName, srv, ec(), notBefore, expiredAt, both)
 		c.leaves["wrongname"] = c.CA1.leaf("other.test", []string{"other.test"}, ec(), notBefore, notAfter, both)
+		c.leaves["ecdsa-uscore"] = c.CA1.leaf(UnderscoreName, []string{UnderscoreName}, ec(), notBefore, notAfter, both)
 		c.leaves["wrongname-rsa"] = c.CA1.leaf("other.test", []string{"other.test"}, rs(), notBefore, notAfter, both)
 		c.leaves["untrusted"] = c.CA2.leaf(ServerName, srv, ec(), notBefore, notAfter, both)
 		c.leaves["client-ecdsa"] = c.CA1.leaf("client", nil, ec(), notBefore, notAfter, both)
